@@ -543,8 +543,7 @@ def g_index(rng):
                 lo_, hi_ = sorted([sl.start or 0, sl.stop if sl.stop is not None else n])
                 sl = slice(lo_, hi_, 1)
                 key[j] = sl
-            neg_flip = sl.step is not None and sl.step < 0 and len(range(*sl.indices(n))) >= 2
-            req[j] = "S" if neg_flip else "s"
+            req[j] = "s"
     if narr >= 1 and "o" in req:       # ndindex's own ordering of type errors vs array checks is not modelled
         keep = [j for j, rq in enumerate(req) if rq != "o"]
         key, req = [key[j] for j in keep], [req[j] for j in keep]
@@ -726,8 +725,8 @@ def corr(ctx):
     import common
     recs = assert_records(common.REPO)
     ctx.extra["assert_table"] = ["%s:%s:%d: assert %s" % (f, q, ln, t) for f, q, t, ln in recs]
-    corr_validate(ctx, ctx.budget(700, 6000))
-    corr_keys(ctx, ctx.budget(120, 1200))
+    corr_validate(ctx, ctx.budget(500, 6000))
+    corr_keys(ctx, ctx.budget(80, 500))
 
 
 # ----------------------------------------------------------------------------------------------
@@ -902,7 +901,9 @@ def classify(build, config, phase, e, params=None):
     # 2. repeat with repeats == 0: ZeroDivisionError in the key function
     if isinstance(e, ZeroDivisionError) and phase == "execute":
         for f in fr:
-            if getattr(f.f_code, "co_qualname", "") == "repeat.<locals>.back_key_function" and f.f_locals.get("repeats") == 0:
+            q = getattr(f.f_code, "co_qualname", "")
+            if q in ("repeat.<locals>.back_key_function", "_repeat") and f.f_locals.get("repeats") == 0 \
+                    and f.f_code.co_filename.endswith("manipulation_functions.py"):
                 return "repeat-zero"
         return None
     # 3. zero chunk size / split_every zero: ZeroDivisionError at build
@@ -941,9 +942,13 @@ def classify(build, config, phase, e, params=None):
     msg2 = str(e2)
     shape_err = (isinstance(e2, ValueError) and "could not broadcast" in msg2) or \
                 (isinstance(e2, IndexError) and ("tuple index out of range" in msg2 or "too many indices" in msg2))
-    if qual == "clip" and isinstance(e2, TypeError) and "a_max" in msg2 and len(cfg.reads_map) == 2:
+    if qual == "_partial_reduce" and isinstance(e2, IndexError):
+        for f in frames_of(e2):
+            if f.f_code.co_name == "_var_combine" and f.f_locals.get("axis") == ():
+                return "var-zero-dim"
+    if qual == "clip" and isinstance(e2, TypeError) and "a_max" in msg2 and len(cfg.num_input_blocks) == 2:
         return "clip-min-only"
-    if isinstance(e2, ValueError) and any(w in msg2 for w in ("broadcast", "shape-mismatch")) \
+    if isinstance(e2, ValueError) and any(w in msg2 for w in ("broadcast", "shape-mismatch", "mismatch in its core dimension")) \
             and qual not in ("_read_stack_chunk", "qr", "_store_array.<locals>.<lambda>", "_repeat"):
         # unify_chunks asked for a rechunk of a zero-size operand, which `_rechunk_plan` skips: blocks stay misaligned
         geo = [chunks_of(p) for p in cfg.reads_map.values()]
@@ -994,13 +999,23 @@ def check_case(ctx, label, build, case, params=None, configs=None, execs=("singl
             if v is None:
                 continue
             fcase = dict(case=case, config=cname, executor=exn, phase=phase, exception=type(e).__name__, site=site_of(e))
-            b2, c2 = build, case
+            seen = ctx.__dict__.setdefault("_c17_seen", {})
+            b2 = build
+            # a defect already minimised twice in this run is recognised on the unshrunk case (saves the shrink)
             if shrinkable is not None:
+                try:
+                    k0 = classify(build, opts[cname], phase, e, params)
+                except Exception:  # noqa: BLE001
+                    k0 = None
+                if k0 is not None and ctx.known(k0) and seen.get(k0, 0) >= 2:
+                    seen[k0] += 1
+                    ctx.fail(v, fcase, key=k0)
+                    return
                 try:
                     b2, c2 = shrinkable(phase, e, opts[cname], exn)
                     fcase["shrunk"] = c2
                     phase, e = run_phases(b2, opts[cname], exn)
-                    fcase.update(phase=phase, exception=type(e).__name__, site=site_of(e))
+                    fcase.update(phase=phase, exception=type(e).__name__, site=site_of(e) if e is not None else [])
                 except Exception as ee:  # noqa: BLE001
                     fcase["shrink_error"] = repr(ee)[:200]
                     phase, e = run_phases(build, opts[cname], exn)
@@ -1013,6 +1028,8 @@ def check_case(ctx, label, build, case, params=None, configs=None, execs=("singl
             except Exception as ce:  # noqa: BLE001
                 key = None
                 fcase["classifier_error"] = repr(ce)[:200]
+            if key is not None:
+                seen[key] = seen.get(key, 0) + 1
             ctx.fail(verdict(phase, e) or v, fcase, key=key)
             return   # one failure per case is enough
 
@@ -1145,7 +1162,7 @@ def oracle(ctx):
     import common
     common.use_repo()
     import exprgen
-    nprog = ctx.budget(110, 900)
+    nprog = ctx.budget(60, 600)
     for i in range(nprog):
         prog = exprgen.gen_program(ctx.rng, max_depth=ctx.rng.choice([1, 2, 3, 4]), max_elems=600, max_blocks=40)
         r = ctx.rng.random()
@@ -1156,8 +1173,8 @@ def oracle(ctx):
             configs = ["default", "off", "simple", "fuse_all"] if r < 0.2 else ["default"] if r < 0.6 else ["off"]
             execs = ("single", "threads") if r < 0.1 else ("single",)
         exprgen_case(ctx, prog, configs, execs)
-    oracle_streams(ctx, ctx.budget(25, 250))
-    oracle_legacy(ctx, ctx.budget(12, 80))
+    oracle_streams(ctx, ctx.budget(14, 100))
+    oracle_legacy(ctx, ctx.budget(12, 60))
 
 
 def search(ctx):
